@@ -574,11 +574,15 @@ End Calls.
 (* Part 4: AdaptRegistry                                                                 *)
 (* ------------------------------------------------------------------------------------ *)
 (* callables: a plain function or callable object (identified by a number), a
-   functools.partial of a callable, a bound method whose __func__ is a callable *)
+   functools.partial of a callable, a bound method whose __func__ is a callable, and the closure
+   `adapted_fun` that _transform built around a callable (id: the number of this new function
+   object; adapting = true for adapt_func's wrapper, false for restore_func's).  The closure is an
+   ordinary new function: it has no __func__, is no partial and starts without the native mark. *)
 Inductive callable :=
 | CFun (f : nat)
 | CPartial (c : callable)
-| CMethod (c : callable).
+| CMethod (c : callable)
+| CWrap (id : nat) (adapting : bool) (c : callable).
 
 (* _get_underlying_func: the `while True` loop peels one wrapper per iteration *)
 Fixpoint underlying (c : callable) : nat :=
@@ -586,6 +590,7 @@ Fixpoint underlying (c : callable) : nat :=
   | CFun f => f
   | CPartial c' => underlying c'
   | CMethod c' => underlying c'
+  | CWrap id _ _ => id
   end.
 
 (* the flag attribute of the function objects *)
@@ -912,20 +917,45 @@ Definition holds_registry (ops : list reg_op) (c : callable) (obs_native obs_sam
    the outcome was called with one graph: an internal graph for adapt_func, a domain graph for
    restore_func.  Observed: is_native(q), "the outcome is q itself", "the function saw a domain
    graph".  Nothing may be remembered from earlier steps of the session. *)
+(* class of the graph the innermost function receives when the callable is called with one graph
+   of class x (BaseNetworkxAdapter; partials / methods only prepend arguments; a _transform closure
+   converts the argument and calls what it wraps) *)
+Definition through (adapting : bool) (x : gcl) : gcl :=
+  match (if adapting then @restore nat nat tidR ANx (VGraph x 0) else @adapt nat nat tid ANx (VGraph x 0)) with
+  | Ok (VGraph c _) => c
+  | _ => x
+  end.
+
+Fixpoint sees (c : callable) (x : gcl) : gcl :=
+  match c with
+  | CFun _ => x
+  | CPartial c' => sees c' x
+  | CMethod c' => sees c' x
+  | CWrap _ ad c' => sees c' (through ad x)
+  end.
+
+Definition is_kdom (c : gcl) : bool := match c with KDom => true | _ => false end.
+
+(* the object adapt_func / restore_func hands out, as a term (fresh: number of the new closure) *)
+Definition session_result (native adapting : bool) (fresh : nat) (q : callable) : callable :=
+  if adapting then (if native then q else CWrap fresh true q) else CWrap fresh false q.
+
 Definition expect_recv_dom (fl : flags) (adapting : bool) (q : callable) : bool :=
-  if adapting then negb (is_native fl q) else false.
+  is_kdom (sees (session_result (is_native fl q) adapting 0 q) (if adapting then KOpt else KDom)).
 
 Definition agree_session (ops : list reg_op) (adapting : bool) (q : callable) (n s recv_dom : bool) : bool :=
   Bool.eqb (is_native (run_ops ops) q) n &&
   Bool.eqb (if adapting then adapted_is_same (adapt_func (run_ops ops) q) else false) s &&
   Bool.eqb (expect_recv_dom (run_ops ops) adapting q) recv_dom.
 
-(* by the history alone: registered (last operation on the underlying function is a
-   registration) -> native, returned as is, called with the internal graph untouched; otherwise
-   wrapped and called with the restored domain graph; restore_func always wraps and hands the
-   function an internal graph *)
+(* by the history alone: registered (last operation on the underlying function object is a
+   registration; the closures handed out by adapt_func / restore_func are function objects of
+   their own and never inherit a registration) -> native, returned as is, called with the graph
+   untouched; otherwise wrapped, so that what it wraps is called with the restored domain graph;
+   restore_func always wraps *)
 Definition holds_session (ops : list reg_op) (adapting : bool) (q : callable) (n s recv_dom : bool) : bool :=
   let reg := match last_op_on (underlying q) ops None with Some true => true | _ => false end in
   Bool.eqb reg n &&
-  (if adapting then Bool.eqb reg s && Bool.eqb (negb reg) recv_dom else negb s && negb recv_dom).
+  Bool.eqb (adapting && reg) s &&
+  Bool.eqb (is_kdom (sees (session_result reg adapting 0 q) (if adapting then KOpt else KDom))) recv_dom.
 
